@@ -441,9 +441,8 @@ func registerOS(e *Engine) {
 		if ino == nil {
 			return in.pathError("remove", name, eNOENT)
 		}
-		if in.fs.fault("remove") {
-			return in.pathError("remove", name, eIO)
-		}
+		// cleanup calls (unlink) are assumed not to fail: a failing unlink of a
+		// temporary file leaves it behind whatever the caller does
 		in.fs.mutate("unlink " + name)
 		delete(in.fs.names, name)
 		ino.nlink--
